@@ -694,4 +694,52 @@ theorem nonvacuous_forEach_frame :
     (run 30 (.op (.forEach (some ⟨false, "", "m"⟩) none (some "i") body)) ⟨d, []⟩).st.data = d := by
   decide +kernel
 
+/-- C14.6 for the WHOLE forEach (any number of items, any fuel, also when an iteration fails): if the body
+    leaves the data as it found it — for every item and from every state holding the same data (the
+    registry of callables may differ) — and the variable was not in the data before, the data after the
+    loop is the data before it. -/
+theorem forEach_frame_pure_all (v : String) (b : Action) (d : AMap Node) (hs : AMap.Sorted d)
+    (hx : hasIdxSuffix v = false) (hv : AMap.get? d v = none)
+    (hbody : ∀ (m : Nat) (it : Node) (st' : St), st'.data = d →
+      ((run m (.cloneOps (opsOf b)) (st'.setData (add st'.data v it))).andThen fun s =>
+        wrap "steps" (run m (.steps (sortActs b.children)) s)).st.data = add st'.data v it) :
+    ∀ (n : Nat) (its : List ItemE) (st : St), st.data = d → (run n (.items v b its) st).st.data = d := by
+  have hitem : ∀ (n : Nat) (it : Node) (st : St), st.data = d → (run n (.item v b it) st).st.data = d := by
+    intro n it st hd
+    cases n with
+    | zero => exact hd
+    | succ m =>
+      rw [forEach_frame_pure m v b it st (hd ▸ hs) hx (hd ▸ hv) (hbody m it st hd)]
+      exact hd
+  intro n
+  induction n with
+  | zero => intro its st hd; exact hd
+  | succ n ih =>
+    intro its st hd
+    cases its with
+    | nil => exact hd
+    | cons it its =>
+      rw [forEach_trace]
+      have h1 := hitem n (it.resolve st.data) st hd
+      unfold Res.andThen
+      split
+      · exact h1
+      · exact ih its _ h1
+
+/-- the hypothesis holds for a body that only logs (every fuel, every item, every state): the whole
+    loop over any item list returns the data unchanged -/
+theorem nonvacuous_forEach_frame_all (d : AMap Node) (hs : AMap.Sorted d) (hv : AMap.get? d "i" = none)
+    (n : Nat) (its : List ItemE) (defs : AMap Action) :
+    (run n (.items "i" (.mk "b" 0 none [.log "plain"] []) its) ⟨d, defs⟩).st.data = d := by
+  refine forEach_frame_pure_all "i" _ d hs (by decide) hv ?_ n its ⟨d, defs⟩ rfl
+  intro m it st' _
+  have hops : opsOf (.mk "b" 0 none [.log "plain"] []) = [.log "plain"] := by rfl
+  have hcs : sortActs (Action.mk "b" 0 none [.log "plain"] []).children = [] := rfl
+  rw [hops, hcs]
+  match m with
+  | 0 => rfl
+  | 1 => rfl
+  | 2 => rfl
+  | m + 3 => rfl
+
 end Ytk.C14
